@@ -276,7 +276,7 @@ func propC09(r *kernel.Run) {
 	}
 	rotate()
 	nextRot := start.Add(1 + time.Duration(tp.Int63()%int64(R)))
-	nev := tp.Range(30, 200)
+	nev := tp.Range(30, r.Deep(200, 600))
 	for ev := 0; ev < nev; ev++ {
 		// next event
 		who := -1
